@@ -3,6 +3,7 @@ import Psa.Render
 import Psa.Eval
 import Psa.RegistrySpec
 import Psa.AdmitIO
+import Psa.StdEval
 import Psa.Generated.Tables
 /-! psa-driver: one JSON object per input line, one JSON object per output line. -/
 open Lean PSA PSA.IO
@@ -58,6 +59,11 @@ def handle (j : Json) : R Json := do
     let rs := evalPodModel Generated.tables (boolD j "relax") ⟨l, v⟩ p
     return Json.mkObj [("results", Json.arr ((revs.zip rs).map (fun (r, x) =>
       (jresult x).setObjVal! "rev" (jstr (revName r)))).toArray)]
+  | "stdEval" =>
+    let p ← pod (← fld j "pod")
+    let l ← level (← fld j "level")
+    let v ← ver (← fld j "version")
+    return Json.mkObj [("results", Json.arr ((stdEval l v p).map jresult).toArray)]
   | "registry" =>
     let cs ← arrOf regCheck (fldD j "checks")
     let valid := validateChecks cs
